@@ -122,6 +122,18 @@ Theorem C09_sts_every_connection_preloaded :
 Proof. exact every_connection_preloaded. Qed.
 Print Assumptions C09_sts_every_connection_preloaded.
 
+(* the store and the lookup use the same key, the hostname exactly as the server entry carries it (capitals
+   included): a policy stored for host h is applied to the next connection to h, for every store and every h.
+   (The key expressions of addStsPolicy / expireStsPolicy / addDisconnection / _applyStsPolicy / onDisconnect /
+   _onCapSts are pinned by the table extractor; histories with capitalised hostnames run against the real code.) *)
+Theorem C09_sts_store_then_apply :
+  forall n h pol now p0 at0 f0 port duration,
+    parseStsPolicy2 pol true = Some (port, duration) ->
+    unexpired now (addStsPolicy n h pol) h duration ->
+    applyStsPolicy now (addStsPolicy n h pol) (Server h p0 at0 f0) = (addStsPolicy n h pol, Ok (Server h port at0 true)).
+Proof. exact sts_store_then_apply. Qed.
+Print Assumptions C09_sts_store_then_apply.
+
 (* forced verification means verification *)
 Theorem C09_force_implies_verify :
   forall conf_verify fp ca, verify_choice true conf_verify fp ca = true \/ fp = true \/ ca = true.
